@@ -980,3 +980,5 @@ NOT_DECIDED = ('user functions passed to map/filter/accumulate are modelled as u
 ASSUMPTIONS = ('lists are modelled by value: a list that escapes (is yielded) is not mutated afterwards by the operator (checked syntactically by the unsupported-construct rule: unknown mutating methods make the unit undecided)',
                'stream elements have a total, side-effect free == and truthiness',
                'functions under contract are executed by CPython as pyvc\'s documented subset semantics says')
+
+SCENARIOS = [('', 'replay/scenarios/c03_ops.py')]
